@@ -56,8 +56,7 @@ def main():
             if ok:
                 out = os.path.join(SEEDED, "%s-%d" % (pid, k))
                 os.makedirs(out, exist_ok=True)
-                diff = sh("git diff", cwd=WT).stdout
-                open(os.path.join(out, "patch.diff"), "w", newline="").write(diff)
+                sh("git diff --binary > %s" % os.path.join(out, "patch.diff"), cwd=WT)   # bytes: sources are CRLF
                 shutil.copy(demo, os.path.join(out, "demo.py"))
                 if os.path.exists(notes):
                     shutil.copy(notes, os.path.join(out, "notes.md"))
